@@ -260,8 +260,10 @@ class C12(Sim):
                             "as": kind})
             elif r < 0.65 and faults:
                 ops.append({"op": "fail", "exc": rng.choice(EXC_NAMES)})
-            elif r < 0.72:
+            elif r < 0.70:
                 ops.append({"op": "clear"})
+            elif r < 0.72:
+                ops.append({"op": "copy", "how": rng.choice(["deepcopy", "deepcopy", "pickle"])})
             elif r < 0.79:
                 k = rng.choice([1, 1, 1, 2, 3])
                 ops.append({"op": "assign", "vals": [fenc(draw_value(rng, lo, hi)[0]) for _ in range(k)]})
@@ -429,6 +431,18 @@ class C12(Sim):
                 elif raised is not None:
                     st.hit("outcomes.defuzzifier_called_for_disabled_variable")
                 sig.append("F")
+            elif kind == "copy":
+                # the run continues on a copy of the variable (what Engine.copy() does to every variable): a copy holds what the
+                # original held - value, previous value, fuzzy output, settings - so the cascade goes on as if nothing happened
+                import copy as _copy
+                import pickle as _pickle
+                try:
+                    ov = _copy.deepcopy(ov) if op["how"] == "deepcopy" else _pickle.loads(_pickle.dumps(ov))
+                    stub = ov.defuzzifier
+                    st.hit("probes.continued_on_a_copy_of_the_variable")
+                except Exception as e:  # noqa: BLE001 - not copyable this way: stay on the original
+                    st.hit("outcomes.variable_not_copyable_" + type(e).__name__)
+                sig.append("Y")
             elif kind == "clear":
                 ov.clear()
                 if m.cur and m.cur[-1] == m.cur[-1]:
